@@ -33,3 +33,10 @@ package climate
 //@   loop 0 step [C20.vapour-pressure-out] vaporPressure.at(i) > 0 && vaporPressure.at(i) == calcVaporPressure(dryBulb.at(i))
 //@   loop 0 step [C20.dew-point-pointwise] dewPoint.at(i) == calcDewPoint(dryBulb.at(i), humidity.at(i))
 //@   loop 0 step [C20.wet-bulb-between] implies(true, min(dewPoint.at(i), dryBulb.at(i)) <= wetBulb.at(i) && wetBulb.at(i) <= max(dewPoint.at(i), dryBulb.at(i)))
+
+// Relational harness (models/climate/verif_harness.go, build tag verif): dew point rises with
+// humidity, as long as the Magnus inverse stays on its increasing branch (17.27 - ln(ea/0.6108) > 0,
+// i.e. an actual vapour pressure below about 1.9e7 kPa - the finiteness condition of not_covered).
+//@ func verifDewPointPair(temperature, humidity1, humidity2) returns (d1, d2)
+//@   requires temperature > -273.16 && 0 < humidity1 && humidity1 <= humidity2
+//@   ensures [C20.dew-point-rises-with-humidity] implies(log(calcVaporPressure(temperature)*humidity2/100/0.6108) < 17.27, d1 <= d2)
